@@ -61,6 +61,9 @@ type Rig struct {
 	sources map[string][]*src.Source // per interface: every source ever created (last = current)
 	// OnNewSource, if set, is called for every source the manager creates.
 	OnNewSource func(s *src.Source)
+	// InitErr, if set, is consulted before a source is created; a non-nil error makes the source
+	// initialisation of that interface fail (the capture does not start).
+	InitErr      func(iface string) error
 	restoreLinks func()
 }
 
@@ -96,6 +99,14 @@ func NewRig(cfg *config.Config, o Options) (*Rig, error) {
 	}
 	opts := []capture.ManagerOption{
 		capture.WithSourceInitFn(func(c *capture.Capture) (capture.Source, error) {
+			r.mu.Lock()
+			initErr := r.InitErr
+			r.mu.Unlock()
+			if initErr != nil {
+				if err := initErr(c.Iface()); err != nil {
+					return nil, err
+				}
+			}
 			s := src.New(c.Iface())
 			r.mu.Lock()
 			r.sources[c.Iface()] = append(r.sources[c.Iface()], s)
@@ -120,6 +131,13 @@ func NewRig(cfg *config.Config, o Options) (*Rig, error) {
 	}
 	r.Mgr = mgr
 	return r, nil
+}
+
+// SetInitErr installs (or clears, with nil) the source initialisation fault hook.
+func (r *Rig) SetInitErr(fn func(iface string) error) {
+	r.mu.Lock()
+	r.InitErr = fn
+	r.mu.Unlock()
 }
 
 // Source returns the current source of an interface (nil if none).
